@@ -517,8 +517,29 @@ def ep_union_pass(prog: Program) -> RuleResult:
     def true_only(e):
         fl_ = e.flag.flag if e.flag is not None else None
         return fl_ == ("const", False) or any((str(g[2]).endswith(".is_true") and g[1] is True) or (str(g[2]).endswith(".is_false") and g[1] is False) for g in e.guards) \
-            or any("is_true" in str(g) and "filter" in str(g) for g in e.guards)
+            or getattr(e.bindings, "filtered", None) == "true"
     verdicts = [e for e in s.emissions if not true_only(e) and e.bindings.must & left and e.bindings.must & right]
+    # the pass that evaluates both operands is consumed by the union's own evaluation: a filter on true results around it removes the verdicts
+    from ..model import walk_local, parents_of
+    from ..astutil import call_name as _cn
+
+    uev = prog.lookup(un.qual, "_evaluate__")
+    par = parents_of(uev.node)
+    passes = [c_ for c_ in walk_local(uev.node) if isinstance(c_, ast.Call) and _cn(c_) == "evaluate_left"]
+    def filtered_true(c_):
+        x = c_
+        while x in par:
+            p_ = par[x]
+            if isinstance(p_, ast.Call) and isinstance(p_.func, ast.Name) and p_.func.id == "filter" and x in p_.args and "is_true" in src(p_.args[0]):
+                return True
+            if isinstance(p_, ast.comprehension) and p_.iter is x and any("is_true" in src(i) for i in p_.ifs):
+                return True
+            if isinstance(p_, ast.For) and p_.iter is x and any(isinstance(t_, ast.If) and "is_true" in src(t_.test) and not t_.orelse for t_ in p_.body) and len(p_.body) == 1:
+                return True
+            x = p_
+        return False
+    if passes and all(filtered_true(c_) for c_ in passes):
+        verdicts = []
     r.check(bool(verdicts), "Union#reports-false-when-both-are-false", un.loc, f"{len(verdicts)} of {n} emissions can carry the falsity of the disjunction",
             "a pass that evaluated both operands hands its false results on",
             "every pass of the union evaluation hands on true results only: the disjunction never reports a binding as false, so not_(and_(or_(a(x), b(y)), c(x))) loses every row on "
